@@ -283,3 +283,152 @@ modelled! {
     #[kani::stub(customasm::asm::resolver::resolve_once, resolve_once_nd)]
     fn c02_a_iter_protocol30() { iter_protocol(30) }
 }
+
+// ---------------------------------------------------------------- C02-c: one pass visits every item and merges their states
+
+struct OnceLog { magic: u64, n: usize, kinds: [u8; 12], ret: [u8; 12], first: bool, last: bool, flags_ok: bool }
+static mut OL: OnceLog = OnceLog { magic: 0x4f4c_5eed_c0de_0021, n: 0, kinds: [0; 12], ret: [0; 12], first: false, last: false, flags_ok: true };
+/// Contract stub shared by the eight per-item steps: logs which step ran with which pass flags and
+/// returns Resolved / Unresolved / Err-after-recording-an-error, chosen by the solver.
+fn once_step(kind: u8, report: &mut diagn::Report, ctx: &asm::ResolverContext) -> Result<asm::ResolutionState, ()> {
+    let c: u8 = kani::any();
+    kani::assume(c < 3);
+    unsafe {
+        if OL.n < 12 {
+            OL.kinds[OL.n] = kind;
+            OL.ret[OL.n] = c;
+            OL.n += 1;
+        }
+        if ctx.is_first_iteration != OL.first || ctx.is_last_iteration != OL.last {
+            OL.flags_ok = false;
+        }
+    }
+    match c {
+        0 => Ok(asm::ResolutionState::Resolved),
+        1 => Ok(asm::ResolutionState::Unresolved),
+        _ => { report.error("step failed"); Err(()) }
+    }
+}
+pub fn so_constant(r: &mut diagn::Report, _o: &asm::AssemblyOptions, _fs: &mut dyn util::FileServer, _a: &asm::AstSymbol, _d: &asm::ItemDecls, _f: &mut asm::ItemDefs, ctx: &asm::ResolverContext) -> Result<asm::ResolutionState, ()> { once_step(2, r, ctx) }
+pub fn so_label(r: &mut diagn::Report, _o: &asm::AssemblyOptions, _a: &asm::AstSymbol, _d: &asm::ItemDecls, _f: &mut asm::ItemDefs, ctx: &asm::ResolverContext) -> Result<asm::ResolutionState, ()> { once_step(1, r, ctx) }
+pub fn so_instr(r: &mut diagn::Report, _o: &asm::AssemblyOptions, _fs: &mut dyn util::FileServer, _a: &asm::AstInstruction, _d: &asm::ItemDecls, _f: &mut asm::ItemDefs, ctx: &asm::ResolverContext) -> Result<asm::ResolutionState, ()> { once_step(3, r, ctx) }
+pub fn so_data(r: &mut diagn::Report, _o: &asm::AssemblyOptions, _fs: &mut dyn util::FileServer, _a: &asm::AstDirectiveData, _i: usize, _d: &asm::ItemDecls, _f: &mut asm::ItemDefs, ctx: &asm::ResolverContext) -> Result<asm::ResolutionState, ()> { once_step(4, r, ctx) }
+pub fn so_res(r: &mut diagn::Report, _o: &asm::AssemblyOptions, _fs: &mut dyn util::FileServer, _a: &asm::AstDirectiveRes, _d: &asm::ItemDecls, _f: &mut asm::ItemDefs, ctx: &asm::ResolverContext) -> Result<asm::ResolutionState, ()> { once_step(5, r, ctx) }
+pub fn so_align(r: &mut diagn::Report, _o: &asm::AssemblyOptions, _fs: &mut dyn util::FileServer, _a: &asm::AstDirectiveAlign, _d: &asm::ItemDecls, _f: &mut asm::ItemDefs, ctx: &asm::ResolverContext) -> Result<asm::ResolutionState, ()> { once_step(6, r, ctx) }
+pub fn so_addr(r: &mut diagn::Report, _o: &asm::AssemblyOptions, _fs: &mut dyn util::FileServer, _a: &asm::AstDirectiveAddr, _d: &asm::ItemDecls, _f: &mut asm::ItemDefs, ctx: &asm::ResolverContext) -> Result<asm::ResolutionState, ()> { once_step(7, r, ctx) }
+pub fn so_assert(r: &mut diagn::Report, _o: &asm::AssemblyOptions, _fs: &mut dyn util::FileServer, _a: &asm::AstDirectiveAssert, _d: &asm::ItemDecls, _f: &mut asm::ItemDefs, ctx: &asm::ResolverContext) -> Result<asm::ResolutionState, ()> { once_step(8, r, ctx) }
+
+/// Runs the real `resolve_once` over `ast` (one node per entry of `want`) and checks the aggregation contract.
+fn once_contract(ast: &asm::AstTopLevel, decls: &asm::ItemDecls, defs: &mut asm::ItemDefs, want: &[u8]) {
+    let mut report = diagn::Report::new();
+    let opts = asm::AssemblyOptions::new();
+    let mut fs = NoFs;
+    let (first, last): (bool, bool) = (kani::any(), kani::any());
+    unsafe { OL.n = 0; OL.first = first; OL.last = last; OL.flags_ok = true; }
+    let r = asm::resolver::resolve_once(&mut report, &opts, &mut fs, ast, decls, defs, 0, first, last);
+    let n = unsafe { OL.n };
+    assert!(n <= want.len(), "a step ran more often than there are items");
+    let mut any_unres = false;
+    let mut err_at: Option<usize> = None;
+    let mut i = 0;
+    while i < n {
+        assert!(unsafe { OL.kinds[i] } == want[i], "items are not visited once each, in source order, by the step of their kind");
+        let c = unsafe { OL.ret[i] };
+        if c == 1 { any_unres = true; }
+        if c == 2 && err_at.is_none() { err_at = Some(i); }
+        i += 1;
+    }
+    assert!(unsafe { OL.flags_ok }, "a step saw pass flags other than those of the pass");
+    match &r {
+        Err(_) => {
+            assert!(err_at == Some(n - 1), "pass failed although no step failed, or went on after a failing step");
+            assert!(msgs(&report) > 0, "Err without a diagnostic");
+        }
+        Ok(ref st) => {
+            assert!(err_at.is_none(), "a failing step was swallowed");
+            assert!(n == want.len(), "an item was skipped on this pass");
+            let resolved = matches!(st, asm::ResolutionState::Resolved);
+            assert!(resolved == !any_unres, "pass state is not 'Resolved iff every item is Resolved'");
+            assert!(msgs(&report) == 0, "diagnostic without a failing step");
+        }
+    }
+    kani::cover!(r.is_ok() && !any_unres && first && !last, "everything resolved on a first pass");
+    kani::cover!(r.is_ok() && any_unres && last, "unresolved item on the final pass");
+    kani::cover!(r.is_err() && n == want.len(), "last item fails");
+    kani::cover!(r.is_err() && n == 1, "first item fails");
+    std::mem::forget(report); std::mem::forget(opts);
+}
+
+macro_rules! once_harness {
+    ($(#[$m:meta])* fn $name:ident() $body:block) => {
+        modelled! {
+            #[kani::stub(customasm::asm::resolver::constant::resolve_constant, so_constant)]
+            #[kani::stub(customasm::asm::resolver::label::resolve_label, so_label)]
+            #[kani::stub(customasm::asm::resolver::instruction::resolve_instruction, so_instr)]
+            #[kani::stub(customasm::asm::resolver::data_block::resolve_data_element, so_data)]
+            #[kani::stub(customasm::asm::resolver::res::resolve_res, so_res)]
+            #[kani::stub(customasm::asm::resolver::align::resolve_align, so_align)]
+            #[kani::stub(customasm::asm::resolver::addr::resolve_addr, so_addr)]
+            #[kani::stub(customasm::asm::resolver::assert::resolve_assert, so_assert)]
+            #[kani::stub(customasm::util::BigInt::checked_add, crate::model::st_add)]
+            #[kani::stub(customasm::util::BigInt::checked_sub, crate::model::st_sub)]
+            #[kani::stub(customasm::util::BigInt::checked_mul, crate::model::st_mul)]
+            #[kani::stub(customasm::util::BigInt::checked_mod, crate::c06::st_mod16)]
+            $(#[$m])*
+            fn $name() $body
+        }
+    };
+}
+
+fn once_lit() -> expr::Expr { expr::Expr::Literal(sp(), expr::Value::Bool(false)) }
+
+/// builds the item list selected by `which` (two nodes each, to keep the formula small) and checks the contract
+fn once_case(which: u8) {
+    reset_report_model();
+    let mut decls = empty_decls();
+    let mut defs = asm::defs::init();
+    defs.bankdefs.define(util::ItemRef::new(0), bank(0, 8, 0, None, Some(0), false));
+    let sym = |name: &str, kind: asm::AstSymbolKind, r| asm::AstAny::Symbol(asm::AstSymbol { decl_span: sp(), hierarchy_level: 0, name: String::from(name), kind, no_emit: false, item_ref: Some(r) });
+    let (nodes, want): (Vec<asm::AstAny>, &[u8]) = match which {
+        0 => {
+            defs.res_directives.define(util::ItemRef::new(0), asm::ResDirective { item_ref: util::ItemRef::new(0), reserve_size: 8 });
+            (vec![
+                asm::AstAny::DirectiveAssert(asm::AstDirectiveAssert { header_span: sp(), condition_expr: once_lit() }),
+                asm::AstAny::DirectiveRes(asm::AstDirectiveRes { header_span: sp(), expr: once_lit(), item_ref: Some(util::ItemRef::new(0)) }),
+            ], &[8, 5])
+        }
+        1 => {
+            defs.align_directives.define(util::ItemRef::new(0), asm::AlignDirective { item_ref: util::ItemRef::new(0), align_size: 16 });
+            defs.addr_directives.define(util::ItemRef::new(0), asm::AddrDirective { item_ref: util::ItemRef::new(0), address: BigInt::new(4, None) });
+            (vec![
+                asm::AstAny::DirectiveAlign(asm::AstDirectiveAlign { header_span: sp(), expr: once_lit(), item_ref: Some(util::ItemRef::new(0)) }),
+                asm::AstAny::DirectiveAddr(asm::AstDirectiveAddr { header_span: sp(), expr: once_lit(), item_ref: Some(util::ItemRef::new(0)) }),
+            ], &[6, 7])
+        }
+        2 => {
+            let l0 = decls.symbols.verif_push_decl("a", 0, util::SymbolContext::new_global());
+            let c0 = decls.symbols.verif_push_decl("c", 0, util::SymbolContext::new_global());
+            (vec![
+                sym("a", asm::AstSymbolKind::Label, l0),
+                sym("c", asm::AstSymbolKind::Constant(asm::AstSymbolConstant { expr: once_lit() }), c0),
+            ], &[1, 2])
+        }
+        _ => {
+            defs.instructions.define(util::ItemRef::new(0), asm::Instruction { item_ref: util::ItemRef::new(0), matches: asm::InstructionMatches::new(), encoding_statically_known: false, encoding: BigInt::new(0, Some(8)), resolved: false });
+            defs.data_elems.define(util::ItemRef::new(0), asm::DataElement { item_ref: util::ItemRef::new(0), position_within_bank: None, encoding_statically_known: false, encoding: BigInt::new(0, Some(8)), resolved: false });
+            defs.data_elems.define(util::ItemRef::new(1), asm::DataElement { item_ref: util::ItemRef::new(1), position_within_bank: None, encoding_statically_known: false, encoding: BigInt::new(0, Some(8)), resolved: false });
+            (vec![
+                asm::AstAny::Instruction(asm::AstInstruction { span: sp(), src: String::from("i"), item_ref: Some(util::ItemRef::new(0)) }),
+                asm::AstAny::DirectiveData(asm::AstDirectiveData { header_span: sp(), elem_size: None, elems: vec![once_lit(), once_lit()], item_refs: vec![util::ItemRef::new(0), util::ItemRef::new(1)] }),
+            ], &[3, 4, 4])
+        }
+    };
+    let ast = asm::AstTopLevel { nodes };
+    once_contract(&ast, &decls, &mut defs, want);
+    std::mem::forget(decls); std::mem::forget(defs); std::mem::forget(ast);
+}
+
+once_harness! { #[kani::unwind(3)] fn c02_c_once_assert_res() { once_case(0) } }
+once_harness! { #[kani::unwind(3)] fn c02_c_once_align_addr() { once_case(1) } }
+once_harness! { #[kani::unwind(3)] fn c02_c_once_label_constant() { once_case(2) } }
+once_harness! { #[kani::unwind(3)] fn c02_c_once_instr_data() { once_case(3) } }
